@@ -100,6 +100,11 @@ D['nested_slice_driven'] = ('''
 D['nested_slice_driven_alone'] = ('''
     s.in_ = InPort(8); s.w = Wire(16); s.y = OutPort(2)
 ''', [('s.w[2:12][2:6]', 's.in_[0:4]'), ('s.y', 's.w[5:7]')])
+D['const_parts'] = ('''
+    s.in_ = InPort(8); s.out = OutPort(8); s.ow = OutPort(8); s.os = OutPort(In2); s.w = Wire(8); s.st = Wire(In2); s.l = Leaf()
+    @update
+    def up_lo(): s.w[0:4] @= s.in_[0:4]
+''', [('s.w[4:8]', '10'), ('s.st.a', '3'), ('s.st.b', 's.in_[4:8]'), ('s.l.in_[0:4]', '5'), ('s.l.in_[4:8]', 's.in_[0:4]'), ('s.ow', 's.w'), ('s.os', 's.st'), ('s.out', 's.l.out')])
 D['piecewise_then_whole'] = ('''
     s.in_ = InPort(8); s.p = Wire(In2); s.q = Wire(In2); s.oa = OutPort(4); s.ob = OutPort(2); s.oq = OutPort(In2)
     @update
@@ -130,6 +135,7 @@ WRITERS = {
   'fanout': ['s.x'],
   'nested_slice_driven': ['s.in2', 's.in_[0:4]', 's.w[6:10]'],     # s.w[6:10] overlaps the net-driven s.w[4:8] (written as s.w[2:12][2:6]) and s.w[8:12]
   'nested_slice_driven_alone': ['s.in_[0:4]', 's.w[5:7]'],
+  'const_parts': ['CONST:10', 'CONST:3', 'CONST:5', 's.in_[0:4]', 's.in_[4:8]', 's.l.out', 's.st', 's.w'],   # constants into a slice, a field, a child's port slice
   'slice_of_slice': ['s.x[2:10]', 's.x[4:8]'],                   # s.x[2:12][2:6] IS s.x[4:8]; both overlap block-written slices
   'piecewise_then_whole': ['s.in_[4:8]', 's.p', 's.q.a', 's.q.b[1:3]'],   # s.p: one field by a block, one by a net -> driven relative; s.q driven whole by s.p, so its parts drive
   'equal_constants': ['CONST:5', 'CONST:5', 'CONST:5'],           # every literal is its own constant: three separate nets
